@@ -5,8 +5,10 @@ mod c07;
 mod c08;
 mod c10;
 mod c10_limits;
+mod c12;
 mod c14;
 mod c33;
+mod c17_sdl;
 mod c20;
 mod c20_policy;
 mod strings;
@@ -39,8 +41,11 @@ fn run_inner(case: &str, args: &Value) -> Option<Outcome> {
         "c10_directives" => Some(c10::directives_case(args)),
         "c33_subtype" => Some(c33::subtype(args)),
         "c14_pos" => Some(c14::pos(args)),
+        "c12_upload" => Some(c12::upload(args)),
+        "c12_parse" => Some(c12::parse(args)),
         "c15_quoted" => Some(strings::quoted(args)),
         "c17_escape" => Some(strings::escape(args)),
+        "c17_input_value" | "c17_sdl" => Some(c17_sdl::sdl(args)),
         _ => None,
     }
 }
@@ -61,7 +66,10 @@ pub fn search(case: &str, seed: u64, open: &[String]) -> Option<SearchResult> {
         "c10_complexity" => Box::new(c10_limits::inputs(seed)),
         "c33_subtype" => Box::new(c33::inputs(seed)),
         "c14_pos" => Box::new(c14::pos_inputs(seed)),
+        "c12_upload" => Box::new(c12::upload_inputs(seed)),
+        "c12_parse" => Box::new(c12::parse_inputs(seed)),
         "c15_quoted" | "c17_escape" => Box::new(strings::string_inputs(seed)),
+        "c17_input_value" | "c17_sdl" => Box::new(c17_sdl::inputs(seed, open)),
         _ => return None,
     };
     let mut tried = 0u64;
